@@ -410,6 +410,9 @@ func (s *Server) cmdAOFMD5(msg *Message) (resp.Value, error) {
 	if len(args) != 3 {
 		return retrerr(errInvalidNumberOfArguments)
 	}
+	if s.aof == nil {
+		return retrerr(errors.New("aof disabled"))
+	}
 	pos, err := strconv.ParseInt(args[1], 10, 64)
 	if err != nil || pos < 0 {
 		return retrerr(errInvalidArgument(args[1]))
